@@ -530,6 +530,17 @@ func vpHistory(t *testing.T, penc, eenc *json.Encoder, hist int, rng *rand.Rand,
 			}
 			txn.Out[0].Hours = 1 << 63
 			txn.Out[1].Hours = 1<<63 + uint64(rng.Intn(3))
+			if rng.Intn(2) == 0 && txn.Out[0].Coins >= 2e6 {
+				// the sum wraps in an addition that is not the last one: 2^64-1-k, then k+1+..., then a small third amount
+				k := uint64(rng.Intn(1000))
+				txn.Out[0].Coins -= 1e6
+				txn.Out = append(txn.Out, coin.TransactionOutput{Address: owners[2].addr, Coins: 1e6, Hours: uint64(1 + rng.Intn(50))})
+				txn.Out[0].Hours = ^uint64(0) - k
+				txn.Out[1].Hours = k + 1 + uint64(rng.Intn(100))
+				if rng.Intn(2) == 0 {
+					txn.Out[0], txn.Out[2] = txn.Out[2], txn.Out[0] // or in the last one after all, in another position
+				}
+			}
 		}
 		if kind == "unknown-input" {
 			var hsh cipher.SHA256
